@@ -44,9 +44,17 @@ func c15Fixture(c *c15ctx, kind int, s1, s2 string, i1, i3 int, preDef bool) {
 		}
 		return jfx.WithOptionMutable{Title: s1, Note: optS(k, s2), Level: optI(k), Tags: tags}.AsImmutable()
 	}
-	tagged := func(a string, n int) jfx.Tagged {
-		return jfx.TaggedMutable{Alpha: a, Beta: n, Gamma: s3}.AsImmutable()
+	taggedM := func(a string, n int) jfx.TaggedMutable {
+		m := jfx.TaggedMutable{Alpha: a, Beta: n, Gamma: s3}
+		switch n % 3 {
+		case 1:
+			m.List = []string{} // empty but not nil: encodes as [] because the explicit tag has no omitempty
+		case 2:
+			m.List = []string{a, s3}
+		}
+		return m
 	}
+	tagged := func(a string, n int) jfx.Tagged { return taggedM(a, n).AsImmutable() }
 	switch kind {
 	case 0:
 		c.name = "@fp.Json fixture Plain"
@@ -102,12 +110,15 @@ func c15Fixture(c *c15ctx, kind int, s1, s2 string, i1, i3 int, preDef bool) {
 		c15Run(c, v, pre, jfx.NilableMutable{Raw: 1.0}.AsImmutable(), any(v.AsMutable()), true, true)
 	case 3:
 		c.name = "@fp.Json fixture Tagged (explicit json tags)"
-		v := tagged(s1, i1%3)
+		// the emitted JSON is compared with the encoding of the Mutable value the record was built FROM (not with
+		// v.AsMutable()): AsImmutable must not change what gets encoded
+		m := taggedM(s1, ((i1%3)+3)%3)
+		v := m.AsImmutable()
 		pre := jfx.Tagged{}
 		if preDef {
 			pre = tagged("pre", 4)
 		}
-		c15Run(c, v, pre, tagged("o", 0), any(v.AsMutable()), true, true)
+		c15Run(c, v, pre, tagged("o", 0), any(m), true, true)
 	case 4:
 		c.name = "@fp.Json fixture Embedding (embedded struct, colliding key)"
 		v := jfx.EmbeddingMutable{Meta: jfx.Meta{ID: s1, Version: i1}, Id: s2, Name: s3}.AsImmutable()
